@@ -43,8 +43,10 @@ var (
 // ------------------------------------------------------------------ goroutine-state quiescence
 
 type gor struct {
-	state string
-	stack string
+	id      int
+	state   string
+	minutes int // how long the goroutine has been blocked in that state (the runtime prints it from one minute on)
+	stack   string
 }
 
 func goroutines() []gor {
@@ -67,47 +69,100 @@ func goroutines() []gor {
 		if i := strings.IndexByte(blk, '\n'); i >= 0 {
 			hdr = blk[:i]
 		}
-		st := ""
+		g := gor{stack: blk}
+		_, _ = fmt.Sscanf(hdr, "goroutine %d ", &g.id)
 		if a, b := strings.IndexByte(hdr, '['), strings.IndexByte(hdr, ']'); a >= 0 && b > a {
-			st = hdr[a+1 : b]
-			if j := strings.IndexByte(st, ','); j >= 0 {
-				st = st[:j]
+			parts := strings.Split(hdr[a+1:b], ",")
+			g.state = strings.TrimSpace(parts[0])
+			for _, x := range parts[1:] {
+				var m int
+				if n, _ := fmt.Sscanf(strings.TrimSpace(x), "%d minutes", &m); n == 1 {
+					g.minutes = m
+				}
 			}
 		}
-		out = append(out, gor{state: st, stack: blk})
+		out = append(out, g)
 	}
 	return out
+}
+
+// ------------------------------------------------------------------ patience
+// No verdict of this driver may depend on how fast the machine is. Whatever is waited for is waited for longWait; when it
+// still has not happened the driver looks for evidence that does not depend on scheduling: a goroutine of the code under
+// test that the runtime reports as blocked for minutes (the dump says "[semacquire, 2 minutes]"), or one and the same
+// goroutine found away from its loop head in every one of a series of samples. With such evidence the verdict is a
+// hit; without it the history is abandoned and counted (histogram `skipped:...`), no case is emitted.
+const longWait = 150 * time.Second
+
+var skipReason string // set when a history has to be abandoned without a verdict
+
+// blockedEvidence: goroutines whose stack mentions one of the frames and which have been blocked for >= 2 minutes.
+func blockedEvidence(frames ...string) string {
+	var ev []string
+	for _, g := range goroutines() {
+		if g.minutes < 2 {
+			continue
+		}
+		for _, f := range frames {
+			if strings.Contains(g.stack, f) {
+				st := g.stack
+				if len(st) > 900 {
+					st = st[:900]
+				}
+				ev = append(ev, st)
+				break
+			}
+		}
+	}
+	return strings.Join(ev, "\n\n")
+}
+
+// patiently runs f in a goroutine and waits for it. ok = it returned. Otherwise evidence (possibly empty) that the
+// goroutine running f is blocked for good.
+func patiently(f func()) (ok bool, evidence string) {
+	done := make(chan struct{})
+	go func() { f(); close(done) }()
+	select {
+	case <-done:
+		return true, ""
+	case <-time.After(longWait):
+	}
+	// the call frame of this very closure
+	return false, blockedEvidence("verifharness/pubsub.patiently.func1")
 }
 
 // quiet reports whether every goroutine of the components under test is parked at its loop head
 // (or gone): publishTopic in `<-src`, eventLoop in its select, consumeEvents in `range ResponsesCh`,
 // harness readers in their select, no Unsubscribe goroutine, no bus call in flight.
-func quiet() (bool, string) {
-	for _, g := range goroutines() {
+func quiet() (bool, string, int) { return quietIn(goroutines()) }
+
+// quietIn decides on ONE snapshot of the goroutines (runtime.Stack stops the world: the snapshot is consistent).
+func quietIn(gs []gor) (bool, string, int) {
+	for _, g := range gs {
 		s := g.stack
 		switch {
 		case strings.Contains(s, "pubsub.(*memEventBus).publishTopic"):
 			if g.state != "chan receive" || strings.Contains(s, "closeAllSubscribers") || strings.Contains(s, "publishAllSubscribers") {
-				return false, "publishTopic busy: " + g.state
+				return false, "publishTopic busy: " + g.state, g.id
 			}
 		case strings.Contains(s, "filters.(*EventSystem).eventLoop"):
 			if g.state != "select" {
-				return false, "eventLoop busy: " + g.state
+				return false, "eventLoop busy: " + g.state, g.id
 			}
 		case strings.Contains(s, "filters.(*EventSystem).consumeEvents"):
 			// "sleep": the consumeEvents of a world that was shut down (ResponsesCh closed: the outer loop sleeps and retries)
 			if g.state != "chan receive" && g.state != "sleep" {
-				return false, "consumeEvents busy: " + g.state
+				return false, "consumeEvents busy: " + g.state, g.id
 			}
 		case strings.Contains(s, "filters.(*Subscription).Unsubscribe"):
-			return false, "Unsubscribe goroutine alive"
+			return false, "Unsubscribe goroutine alive", g.id
 		case strings.Contains(s, "verifharness/pubsub.(*reader).loop"):
 			if g.state != "select" {
-				return false, "reader busy: " + g.state
+				return false, "reader busy: " + g.state, g.id
 			}
 		}
 	}
-	return true, ""
+	return true, "", 0
 }
 
 var watchdogHit string
@@ -123,11 +178,15 @@ func progress(kind string, done []string, next string) {
 	_ = os.WriteFile(progressPath, []byte(kind+" history; completed ops: ["+strings.Join(done, "; ")+"]; crashed during or right after: "+next), 0o644)
 }
 
-func waitQuiet(t *testing.T) {
-	deadline := time.Now().Add(30 * time.Second)
+// waitQuietWith polls q until it holds twice in a row. After longWait without success: if one and the same goroutine
+// is the offender in each of 20 further samples taken half a second apart it is stuck away from its loop head for good
+// (watchdogHit); otherwise the history is abandoned (skipReason).
+func waitQuietWith(t *testing.T, q func() (bool, string, int)) {
+	deadline := time.Now().Add(longWait)
 	okStreak := 0
+	pause := 50 * time.Microsecond
 	for {
-		ok, why := quiet()
+		ok, why, _ := q()
 		if ok {
 			okStreak++
 			if okStreak >= 2 {
@@ -138,13 +197,36 @@ func waitQuiet(t *testing.T) {
 		}
 		okStreak = 0
 		if time.Now().After(deadline) {
-			watchdogHit = why
-			t.Logf("watchdog: components did not become quiet: %s", why)
+			same, first, lastWhy := true, -1, why
+			for i := 0; i < 20; i++ {
+				time.Sleep(500 * time.Millisecond)
+				ok, w, id := q()
+				if ok {
+					return
+				}
+				lastWhy = w
+				if first < 0 {
+					first = id
+				} else if id != first {
+					same = false
+				}
+			}
+			if same && first > 0 {
+				watchdogHit = lastWhy
+				t.Logf("watchdog: goroutine %d stayed away from its loop head: %s", first, lastWhy)
+			} else {
+				skipReason = "not-quiescent"
+			}
 			return
 		}
-		time.Sleep(50 * time.Microsecond)
+		time.Sleep(pause)
+		if pause < 2*time.Millisecond {
+			pause *= 2
+		}
 	}
 }
+
+func waitQuiet(t *testing.T) { waitQuietWith(t, quiet) }
 
 // ------------------------------------------------------------------ readers on subscriber channels
 
@@ -290,15 +372,15 @@ func runBusHistory(t *testing.T, r *Rng, side *Sidecar, nops int) (string, busHi
 			}
 			i := live[r.Intn(len(live))]
 			marker++
-			done := make(chan struct{})
-			go func() {
-				srcs[i].ch <- coretypes.ResultEvent{Query: "x", Events: map[string][]string{"verif.n": {fmt.Sprint(marker)}}}
-				close(done)
-			}()
-			select {
-			case <-done:
-			case <-time.After(20 * time.Second):
-				side.Hit("C20/pubsub/bus/publisher-not-receiving", "send on a registered source channel blocked for 20 s (publishTopic goroutine stuck)", hist)
+			mk := marker
+			if ok, ev := patiently(func() {
+				srcs[i].ch <- coretypes.ResultEvent{Query: "x", Events: map[string][]string{"verif.n": {fmt.Sprint(mk)}}}
+			}); !ok {
+				if ev2 := blockedEvidence("memEventBus).publishTopic", "memEventBus).publishAllSubscribers"); ev != "" && ev2 != "" {
+					side.Hit("C20/pubsub/bus/publisher-not-receiving", "send on a registered source channel has been blocked for minutes (publishTopic goroutine stuck)", map[string]interface{}{"history": hist, "blocked": ev2})
+				} else {
+					skipReason = "bus-send-not-taken"
+				}
 				return "", hist, false
 			}
 			opS = fmt.Sprintf("OSend %d %d", i, marker)
@@ -396,7 +478,7 @@ func (w *fsWorld) barrier() bool {
 	w.nbar++
 	q := fmt.Sprintf("verif.barrier.%d", w.nbar)
 	w.f.push(q, 0)
-	deadline := time.Now().Add(30 * time.Second)
+	deadline := time.Now().Add(longWait)
 	for w.lg.seen(q) == 0 {
 		if time.Now().After(deadline) {
 			return false
@@ -453,8 +535,12 @@ func runFsHistory(t *testing.T, r *Rng, side *Sidecar, nops int) (string, fsHist
 			}()
 			select {
 			case <-done:
-			case <-time.After(30 * time.Second):
-				side.Hit("C20/pubsub/filtersys/subscribe-deadlock", "EventSystem.subscribe did not return within 30 s", hist)
+			case <-time.After(longWait):
+				if ev := blockedEvidence("EventSystem).subscribe"); ev != "" {
+					side.Hit("C20/pubsub/filtersys/subscribe-deadlock", "EventSystem.subscribe has been blocked for minutes", map[string]interface{}{"history": hist, "blocked": ev})
+				} else {
+					skipReason = "fs-subscribe-slow"
+				}
 				return "", hist, false
 			}
 			si := &subInfo{kind: kd}
@@ -482,8 +568,12 @@ func runFsHistory(t *testing.T, r *Rng, side *Sidecar, nops int) (string, fsHist
 			subs[i].sub.Unsubscribe(w.es)
 			select {
 			case <-subs[i].sub.Err():
-			case <-time.After(30 * time.Second):
-				side.Hit("C20/pubsub/filtersys/uninstall-deadlock", "uninstall was not processed within 30 s", hist)
+			case <-time.After(longWait):
+				if ev := blockedEvidence("Subscription).Unsubscribe", "EventSystem).eventLoop"); ev != "" {
+					side.Hit("C20/pubsub/filtersys/uninstall-deadlock", "an uninstall has not been processed for minutes", map[string]interface{}{"history": hist, "blocked": ev})
+				} else {
+					skipReason = "fs-uninstall-slow"
+				}
 				return "", hist, false
 			}
 			opS = fmt.Sprintf("FUninstall %d", i)
@@ -512,7 +602,11 @@ func runFsHistory(t *testing.T, r *Rng, side *Sidecar, nops int) (string, fsHist
 			marker++
 			w.f.push(queries[kd], kd*100000+marker)
 			if !w.barrier() {
-				side.Hit("C20/pubsub/filtersys/consume-stuck", "consumeEvents did not process an event within 30 s", hist)
+				if ev := blockedEvidence("EventSystem).consumeEvents"); ev != "" && !strings.Contains(ev, "[chan receive") {
+					side.Hit("C20/pubsub/filtersys/consume-stuck", "consumeEvents has been blocked for minutes", map[string]interface{}{"history": hist, "blocked": ev})
+				} else {
+					skipReason = "fs-barrier-slow"
+				}
 				return "", hist, false
 			}
 			opS = fmt.Sprintf("FEvent %d", kd)
@@ -610,10 +704,13 @@ func TestChildReplay(t *testing.T) {
 		})
 	}
 	w.f.push(qHeader, 100001)
-	require.True(t, w.barrier())
+	if !w.barrier() {
+		fmt.Println("REPLAY inconclusive: barrier not reached")
+		return
+	}
 	select {
 	case <-sub.Err():
-	case <-time.After(20 * time.Second):
+	case <-time.After(longWait):
 		fmt.Println("REPLAY uninstall_never_completed")
 	}
 	waitQuiet(t)
@@ -623,15 +720,50 @@ func TestChildReplay(t *testing.T) {
 func runReplayChild(t *testing.T) (completed, crashed bool, out string) {
 	exe, err := os.Executable()
 	require.NoError(t, err)
-	cmd := exec.Command(exe, "-test.run", "^TestChildReplay$", "-test.count", "1", "-test.timeout", "120s")
+	cmd := exec.Command(exe, "-test.run", "^TestChildReplay$", "-test.count", "1", "-test.timeout", "1800s")
 	cmd.Env = append(os.Environ(), "VERIF_PUBSUB_CHILD=replay")
 	var buf bytes.Buffer
 	cmd.Stdout, cmd.Stderr = &buf, &buf
 	runErr := cmd.Run()
 	out = buf.String()
 	completed = strings.Contains(out, "REPLAY completed_during_pause=true")
-	crashed = runErr != nil || !strings.Contains(out, "REPLAY survived")
+	crashed = diedByPanic(runErr, out)
+	if !crashed && !strings.Contains(out, "REPLAY survived") {
+		out = "INCONCLUSIVE\n" + out
+	}
 	return
+}
+
+// diedByPanic: the child process ended because a goroutine panicked or the runtime gave up (fatal error: deadlock,
+// concurrent map access) -- as opposed to a child that was merely slow (test timeout, failed harness assertion), which
+// is no observation about the code under test.
+func diedByPanic(runErr error, out string) bool {
+	if runErr == nil {
+		return false
+	}
+	if strings.Contains(out, "panic: test timed out") {
+		return false
+	}
+	return strings.Contains(out, "panic:") || strings.Contains(out, "fatal error:") || strings.Contains(out, "[signal ")
+}
+
+// minutesBlocked: the dump in out shows a goroutine with one of the frames blocked for minutes.
+func minutesBlocked(out string, frames ...string) bool {
+	for _, blk := range strings.Split(out, "\n\n") {
+		hdr := blk
+		if i := strings.IndexByte(blk, '\n'); i >= 0 {
+			hdr = blk[:i]
+		}
+		if !strings.HasPrefix(strings.TrimSpace(hdr), "goroutine ") || !strings.Contains(hdr, " minutes") {
+			continue
+		}
+		for _, f := range frames {
+			if strings.Contains(blk, f) {
+				return true
+			}
+		}
+	}
+	return false
 }
 
 // ------------------------------------------------------------------ driver
@@ -645,7 +777,7 @@ func TestDriverPubsub(t *testing.T) {
 	if os.Getenv("VERIF_PUBSUB_CHILD") == "" {
 		exe, err := os.Executable()
 		require.NoError(t, err)
-		cmd := exec.Command(exe, "-test.run", "^TestDriverPubsub$", "-test.count", "1", "-test.timeout", "3000s")
+		cmd := exec.Command(exe, "-test.run", "^TestDriverPubsub$", "-test.count", "1", "-test.timeout", "7000s")
 		cmd.Env = append(os.Environ(), "VERIF_PUBSUB_CHILD=histories")
 		_ = os.Remove(filepath.Join(dir, "current_history.txt"))
 		var buf bytes.Buffer
@@ -655,6 +787,15 @@ func TestDriverPubsub(t *testing.T) {
 			return // the child wrote cases_*.v and driver.json
 		}
 		out := buf.String()
+		if !diedByPanic(runErr, out) && !minutesBlocked(out, "rpc/ethereum/pubsub.", "eth/filters.", "evermint/v12/rpc.") {
+			// the child was slow or a harness assertion failed: no observation about the code; an empty run is reported as such
+			side := NewSidecar("pubsub", seed, "the process running the histories ended without a verdict (slow machine / harness failure)")
+			side.Count("skipped:histories-child-ended-without-verdict")
+			side.Extra["child_output_tail"] = tail(out, 2000)
+			NewCases(dir, "From Evm Require Import Conc PubSub FilterSys FilterApi Total CorrPubSub.", "ps_mismatches").Write(t, 40)
+			side.Write(t, dir)
+			return
+		}
 		side := NewSidecar("pubsub", seed, "the process running the histories crashed")
 		sig := "C20/pubsub/histories/crash"
 		switch {
@@ -694,14 +835,20 @@ func TestDriverPubsub(t *testing.T) {
 	for i := 0; i < n; i++ {
 		r := rng.Fork(uint64(i))
 		nops := 10 + r.Intn(31)
+		skipReason = ""
 		if i%4 == 3 {
 			term, h, nt := runApiHistory(t, r, side, nops)
+			if skipReason != "" {
+				side.Count("skipped:api-history:" + skipReason)
+				skipReason = ""
+				continue
+			}
 			if watchdogHit != "" {
 				sig := "C20/pubsub/not-quiescent"
 				if strings.Contains(watchdogHit, "filter consumer busy") {
 					sig = "C20/pubsub/api/filter-consumer-never-parks"
 				}
-				side.Hit(sig, "goroutines of the filter API did not return to their loop heads within 30 s: "+watchdogHit, h)
+				side.Hit(sig, "one goroutine of the filter API stayed away from its loop head for minutes, in every sample: "+watchdogHit, h)
 				break
 			}
 			if term == "" {
@@ -711,6 +858,11 @@ func TestDriverPubsub(t *testing.T) {
 			side.Case(idx, "api:"+fmt.Sprint(h.Cap)+":"+strings.Join(h.Ops, ";"), nt, h)
 		} else if i%4 != 2 {
 			term, h, nt := runBusHistory(t, r, side, nops)
+			if skipReason != "" {
+				side.Count("skipped:bus-history:" + skipReason)
+				skipReason = ""
+				continue
+			}
 			if term == "" {
 				continue
 			}
@@ -718,6 +870,11 @@ func TestDriverPubsub(t *testing.T) {
 			side.Case(idx, "bus:"+strings.Join(h.Ops, ";"), nt, h)
 		} else {
 			term, h, nt := runFsHistory(t, r, side, nops)
+			if skipReason != "" {
+				side.Count("skipped:fs-history:" + skipReason)
+				skipReason = ""
+				continue
+			}
 			if term == "" {
 				continue
 			}
@@ -726,7 +883,7 @@ func TestDriverPubsub(t *testing.T) {
 		}
 		idx++
 		if watchdogHit != "" {
-			side.Hit("C20/pubsub/not-quiescent", "component goroutines did not return to their loop heads within 30 s: "+watchdogHit, nil)
+			side.Hit("C20/pubsub/not-quiescent", "one component goroutine stayed away from its loop head for minutes, in every sample: "+watchdogHit, nil)
 			break
 		}
 	}
@@ -735,9 +892,13 @@ func TestDriverPubsub(t *testing.T) {
 	completed, crashed, out := runReplayChild(t)
 	side.Count(fmt.Sprintf("replay:completed_during_pause=%v,crashed=%v", completed, crashed))
 	rc := map[string]interface{}{"completed_during_pause": completed, "crashed": crashed, "output_tail": tail(out, 1500)}
-	cases.Add(fmt.Sprintf("(PReplay %s %s)", CqBool(completed), CqBool(crashed)))
-	side.Case(idx, "replay", true, rc)
-	idx++
+	if strings.HasPrefix(out, "INCONCLUSIVE") {
+		side.Count("skipped:replay-child-ended-without-verdict")
+	} else {
+		cases.Add(fmt.Sprintf("(PReplay %s %s)", CqBool(completed), CqBool(crashed)))
+		side.Case(idx, "replay", true, rc)
+		idx++
+	}
 	if crashed {
 		sig := "C20/pubsub/filtersys/replay-crashed"
 		if strings.Contains(out, "send on closed channel") {
@@ -755,7 +916,7 @@ func TestDriverPubsub(t *testing.T) {
 	}{{"garbage-eth-payload", true, false}, {"no-messages", false, false}} {
 		exe, err := os.Executable()
 		require.NoError(t, err)
-		cmd := exec.Command(exe, "-test.run", "^TestChildPending$", "-test.count", "1", "-test.timeout", "120s")
+		cmd := exec.Command(exe, "-test.run", "^TestChildPending$", "-test.count", "1", "-test.timeout", "1800s")
 		cmd.Env = append(os.Environ(), "VERIF_PUBSUB_CHILD=pending:"+k.name)
 		var buf bytes.Buffer
 		cmd.Stdout, cmd.Stderr = &buf, &buf
@@ -763,6 +924,10 @@ func TestDriverPubsub(t *testing.T) {
 		out := buf.String()
 		survived := runErr == nil && strings.Contains(out, "PENDING survived")
 		pc := map[string]interface{}{"input": k.name, "survived": survived}
+		if !survived && !diedByPanic(runErr, out) {
+			side.Count("skipped:pending-child-ended-without-verdict:" + k.name)
+			continue
+		}
 		if !survived {
 			i := strings.Index(out, "panic:")
 			if i < 0 {
@@ -813,8 +978,12 @@ func TestDriverPubsub(t *testing.T) {
 		name            string
 		hasMsgs, validB bool
 	}{{"garbage-eth-payload", true, false}, {"no-messages", false, false}} {
-		survived, out := runWsChild(t, "ws:pending:"+k.name)
+		survived, died, out := runWsChild(t, "ws:pending:"+k.name)
 		pc := map[string]interface{}{"input": k.name, "survived": survived, "server": "websocket"}
+		if !survived && !died {
+			side.Count("skipped:ws-pending-child-ended-without-verdict:" + k.name)
+			continue
+		}
 		if !survived {
 			_, ex := wsCrashSignature("C20/pubsub/ws/pending-tx", out)
 			pc["output"] = ex
@@ -831,16 +1000,20 @@ func TestDriverPubsub(t *testing.T) {
 		if os.Getenv("VERIF_TIER") == "thorough" {
 			wms = 30000
 		}
-		survived, out := runWsChild(t, "ws:stress", fmt.Sprintf("VERIF_WSSTRESS_MS=%d", EnvInt("VERIF_WSSTRESS_MS", wms)))
-		if !survived {
+		survived, died, out := runWsChild(t, "ws:stress", fmt.Sprintf("VERIF_WSSTRESS_MS=%d", EnvInt("VERIF_WSSTRESS_MS", wms)))
+		if !survived && !died {
+			side.Count("skipped:ws-stress-child-ended-without-verdict")
+		} else if !survived {
 			sig, ex := wsCrashSignature("C20/pubsub/ws-stress", out)
 			side.Hit(sig, "the process running the websocket server under concurrent clients (subscribe / unsubscribe / malformed messages / dropped connections while events stream) died or stalled",
 				map[string]interface{}{"stderr": ex})
 		}
 		side.Count(fmt.Sprintf("ws_stress:ok=%v", survived))
-		cases.Add(fmt.Sprintf("(PWsStress %s)", CqBool(survived)))
-		side.Case(idx, "ws-stress", true, map[string]interface{}{"survived": survived})
-		idx++
+		if survived || died {
+			cases.Add(fmt.Sprintf("(PWsStress %s)", CqBool(survived)))
+			side.Case(idx, "ws-stress", true, map[string]interface{}{"survived": survived})
+			idx++
+		}
 	}
 
 	// concurrent JSON-RPC filter calls on the real PublicFilterAPI, in a child process (api_test.go)
@@ -849,10 +1022,11 @@ func TestDriverPubsub(t *testing.T) {
 		ms = 45000
 	}
 	ms = EnvInt("VERIF_APISTRESS_MS", ms)
-	survived := apiStress(t, side, ms)
-	cases.Add(fmt.Sprintf("(PApiStress %s)", CqBool(survived)))
-	side.Case(idx, "api-stress", true, map[string]interface{}{"survived": survived, "ms": ms})
-	idx++
+	if survived, conclusive := apiStress(t, side, ms); conclusive {
+		cases.Add(fmt.Sprintf("(PApiStress %s)", CqBool(survived)))
+		side.Case(idx, "api-stress", true, map[string]interface{}{"survived": survived, "ms": ms})
+		idx++
+	}
 
 	if os.Getenv("VERIF_TIER") == "thorough" {
 		stress(t, side)
@@ -873,7 +1047,7 @@ func tail(s string, n int) string {
 func stress(t *testing.T, side *Sidecar) {
 	exe, err := os.Executable()
 	require.NoError(t, err)
-	cmd := exec.Command(exe, "-test.run", "^TestChildStress$", "-test.count", "1", "-test.timeout", "300s")
+	cmd := exec.Command(exe, "-test.run", "^TestChildStress$", "-test.count", "1", "-test.timeout", "3000s")
 	cmd.Env = append(os.Environ(), "VERIF_PUBSUB_CHILD=stress")
 	var buf bytes.Buffer
 	cmd.Stdout, cmd.Stderr = &buf, &buf
@@ -881,17 +1055,31 @@ func stress(t *testing.T, side *Sidecar) {
 	out := buf.String()
 	ok := runErr == nil && strings.Contains(out, "STRESS survived")
 	side.Count(fmt.Sprintf("stress:ok=%v", ok))
-	if !ok {
-		sig := "C20/pubsub/stress/crash-or-deadlock"
-		if strings.Contains(out, "send on closed channel") {
-			sig = "C20/pubsub/stress/send-on-closed-channel"
-		} else if strings.Contains(out, "close of closed channel") {
-			sig = "C20/pubsub/stress/close-of-closed-channel"
-		} else if strings.Contains(out, "STRESS deadlock") || strings.Contains(out, "test timed out") {
-			sig = "C20/pubsub/stress/deadlock"
-		}
-		side.Hit(sig, "goroutine stress run crashed or stalled", map[string]interface{}{"output_tail": tail(out, 3000)})
+	if ok {
+		return
 	}
+	if !diedByPanic(runErr, out) && !minutesBlocked(out, "rpc/ethereum/pubsub.", "eth/filters.") {
+		side.Count("skipped:stress-child-ended-without-verdict")
+		return
+	}
+	sig := "C20/pubsub/stress/crash-or-deadlock"
+	if strings.Contains(out, "send on closed channel") {
+		sig = "C20/pubsub/stress/send-on-closed-channel"
+	} else if strings.Contains(out, "close of closed channel") {
+		sig = "C20/pubsub/stress/close-of-closed-channel"
+	} else if strings.Contains(out, "STRESS deadlock") || strings.Contains(out, "test timed out") {
+		sig = "C20/pubsub/stress/deadlock"
+	}
+	side.Hit(sig, "goroutine stress run crashed or stalled", map[string]interface{}{"output_tail": tail(out, 3000)})
+}
+
+// stalled: a stress client waited longWait for something; the dump decides in the parent whether that is a deadlock.
+func stalled(what string) {
+	fmt.Println("STRESS deadlock: " + what)
+	for _, g := range goroutines() {
+		fmt.Println(g.stack + "\n")
+	}
+	os.Exit(3)
 }
 
 func TestChildStress(t *testing.T) {
@@ -923,9 +1111,8 @@ func TestChildStress(t *testing.T) {
 							for i := 0; i < 50; i++ {
 								select {
 								case src <- coretypes.ResultEvent{Query: name}:
-								case <-time.After(5 * time.Second):
-									fmt.Println("STRESS deadlock: publisher not receiving")
-									os.Exit(3)
+								case <-time.After(longWait):
+									stalled("publisher not receiving")
 								}
 							}
 							close(src)
@@ -961,9 +1148,8 @@ func TestChildStress(t *testing.T) {
 	go func() { wg.Wait(); close(done) }()
 	select {
 	case <-done:
-	case <-time.After(30 * time.Second):
-		fmt.Println("STRESS deadlock: bus clients stuck")
-		os.Exit(3)
+	case <-time.After(2 * longWait):
+		stalled("bus clients stuck")
 	}
 	// (2) EventSystem: concurrent subscribers / unsubscribers while events stream
 	w := newFsWorld(t)
@@ -1022,9 +1208,8 @@ func TestChildStress(t *testing.T) {
 					sub.Unsubscribe(w.es)
 					select {
 					case <-sub.Err():
-					case <-time.After(20 * time.Second):
-						fmt.Println("STRESS deadlock: uninstall not processed")
-						os.Exit(3)
+					case <-time.After(longWait):
+						stalled("uninstall not processed")
 					}
 				}
 				unsub()
@@ -1036,9 +1221,8 @@ func TestChildStress(t *testing.T) {
 	go func() { wg2.Wait(); close(done2) }()
 	select {
 	case <-done2:
-	case <-time.After(60 * time.Second):
-		fmt.Println("STRESS deadlock: filter system clients stuck")
-		os.Exit(3)
+	case <-time.After(3 * longWait):
+		stalled("filter system clients stuck")
 	}
 	close(stop2)
 	<-pusherDone
